@@ -472,6 +472,15 @@ func c10Flow(c *Ctx) {
 							viol("licence-kid", fmt.Sprintf("%s: licence answers for key id %x, asked for %s", m.name, got, kid), laPath, nil)
 						}
 						key, _ = base64.RawURLEncoding.DecodeString(lr.Keys[0].K)
+						// the same key id in the other base64 spellings a client may send (padded base64url, standard base64)
+						for _, form := range []string{base64.URLEncoding.EncodeToString(kb), base64.StdEncoding.EncodeToString(kb), base64.RawStdEncoding.EncodeToString(kb)} {
+							code2, lr2, p2 := postLicence(s, laPath, []string{form})
+							c.Count("licence-requests-other-spelling")
+							if p2 != "" || code2 != 200 || len(lr2.Keys) != 1 || lr2.Keys[0].K != lr.Keys[0].K || lr2.Keys[0].Kid != lr.Keys[0].Kid {
+								viol("licence-spelling", fmt.Sprintf("%s: licence request for the announced key id %s written %q answered %d %s (the unpadded base64url form gets the key)", m.name, kid, form, code2, p2), laPath, nil)
+								break
+							}
+						}
 					} else {
 						kd, err := drmCfg.Map[m.name].CPIXData.GetContentKey(rp.ContentType)
 						if err != nil {
